@@ -18,8 +18,9 @@ and is removed when the block is left.
 Scripts may be given per bit generator (`scripts={id(bitgen): Script(...)}`);
 objects without their own script use the default one.  When a queue runs dry
 the script's `tail` (a callable kind -> float, e.g. drawing from a seeded real
-generator) is asked; without a tail `ScriptExhausted` is raised.  A `budget`
-on the total number of base draws turns a stalled rejection loop into a
+generator; it may look at `script.pending`, the request being served) is
+asked; without a tail `ScriptExhausted` is raised.  A `budget` on the total
+number of base draws turns a stalled rejection loop into a
 `DrawBudgetExceeded` exception instead of a hang.
 """
 import contextlib
@@ -62,6 +63,7 @@ class Script:
         self.budget = budget
         self.ndraws = 0
         self.log = []
+        self.pending = None      # (method, args) of the request being served (for responsive tails)
 
     def pop(self, kind):
         self.ndraws += 1
@@ -130,6 +132,7 @@ class ScriptedGenerator:
     def normal(self, loc=0.0, scale=1.0, size=None):
         if numpy.any(numpy.asarray(scale) < 0):
             raise ValueError('scale < 0')
+        self._s.pending = ('normal', {'loc': loc, 'scale': scale})
         shp = _shape(size, loc, scale)
         z, base = self._draws('z', shp)
         if shp is None:
@@ -142,6 +145,7 @@ class ScriptedGenerator:
     def lognormal(self, mean=0.0, sigma=1.0, size=None):
         if numpy.any(numpy.asarray(sigma) < 0):
             raise ValueError('sigma < 0')
+        self._s.pending = ('lognormal', {'mean': mean, 'sigma': sigma})
         shp = _shape(size, mean, sigma)
         z, base = self._draws('z', shp)
         if shp is None:
@@ -156,6 +160,7 @@ class ScriptedGenerator:
         return out
 
     def random(self, size=None, dtype=numpy.float64, out=None):
+        self._s.pending = ('random', {'size': size})
         u, base = self._draws('u', _shape(size))
         self._log('random', {'size': size}, base, u)
         return u
@@ -166,6 +171,7 @@ class ScriptedGenerator:
         return u
 
     def uniform(self, low=0.0, high=1.0, size=None):
+        self._s.pending = ('uniform', {'low': low, 'high': high})
         shp = _shape(size, low, high)
         u, base = self._draws('u', shp)
         if shp is None:
